@@ -4,6 +4,7 @@ use super::ShardArgs;
 pub mod common;
 
 pub mod c04;
+pub mod c05;
 pub mod c06;
 pub mod c07;
 pub mod c08;
@@ -15,6 +16,7 @@ pub fn dispatch(a: &ShardArgs) -> Result<(), String> {
     super::refcodec::app::self_test()?;
     match a.check.as_str() {
         "c04" => c04::run(a),
+        "c05" => c05::run(a),
         "c06" => c06::run(a),
         "c07" => c07::run(a),
         "c08" => c08::run(a),
